@@ -437,6 +437,11 @@ func (ipfs *Connector) pinProgress(ctx context.Context, hash cid.Cid, maxDepth a
 				return ctx.Err()
 			default:
 				if err == io.EOF {
+					// IPFS reports errors that happen once the
+					// response is streaming in a trailer.
+					if e := res.Trailer.Get("X-Stream-Error"); e != "" {
+						return fmt.Errorf("IPFS request unsuccessful (%s): %s", path, e)
+					}
 					return nil // clean exit. Pinned!
 				}
 				return err // error decoding
